@@ -39,6 +39,7 @@ NoTimer == [k |-> "none", h |-> 0, v |-> 0, due |-> 0, d |-> 0, ext |-> 0]
 Range(s) == {s[i] : i \in 1..Len(s)}
 Max(a, b) == IF a >= b THEN a ELSE b
 Pow2(k) == 2 ^ k
+TruncDiv(a, b) == IF a >= 0 THEN a \div b ELSE -((-a) \div b)   \* Go integer division truncates toward zero
 AllNone(n) == [i \in 1..n |-> None]
 
 \* reason codes of dbft.ChangeViewReason
@@ -370,7 +371,11 @@ OnPrepareResponse(x, m) ==
        IN IF ReqRcvd(x1) /\ x1.prep[x1.primary + 1].ph # m.ph /\ ~W("no_resp_hash_check")
           THEN {[x1 EXCEPT !.prep[m.from + 1] = None]}
           ELSE LET x2 == IF IsPrimary(x1) /\ x1.sentAt >= 0 /\ ~x1.rec
-                         THEN [x1 EXCEPT !.rttAvg = x1.env.rttAvg] ELSE x1
+                         THEN \* rtt.addTime(Timer.Now() - prepareSentTime): time only through the injected timer
+                              LET t == x1.env.now - x1.sentAt
+                                  tt == IF x1.rttOld # 0 /\ t > 2 * x1.rttOld THEN 2 * x1.rttOld ELSE t
+                              IN [x1 EXCEPT !.rttAvg = Max(0, @ + TruncDiv(tt - x1.rttOld, 70)), !.rttOld = x1.env.rttOldNext]
+                         ELSE x1
                    x3 == ExtendTimer(x2, 2)
                IN IF ~WatchOnly(x3) /\ ~CommitSent(x3) /\ (~x3.amev \/ ~PreCommitSent(x3)) /\ ReqRcvd(x3)
                   THEN {CheckPrepare(x3)} ELSE {x3}
@@ -513,7 +518,7 @@ Blank(cfg) ==
    prep |-> <<>>, pc |-> <<>>, cm |-> <<>>, cv |-> <<>>, lastcv |-> <<>>, seen |-> <<>>,
    blockDone |-> FALSE, preDone |-> FALSE, hdr |-> FALSE, preHdr |-> FALSE, blk |-> FALSE, preBlk |-> FALSE,
    cache |-> {}, timer |-> NoTimer, sub |-> FALSE, lbTs |-> 0, lbTime |-> -1, lbIdx |-> 0, lbView |-> 0,
-   sentAt |-> -1, rttAvg |-> 0, tpb |-> 0, maxTpb |-> 0,
+   sentAt |-> -1, rttAvg |-> 0, rttOld |-> 0, tpb |-> 0, maxTpb |-> 0,
    out |-> <<>>, fp |-> 0, fb |-> 0, rec |-> FALSE, cfg |-> cfg, env |-> [now |-> 0]]
 
 Api(x0, call, arg, env) ==
